@@ -6,6 +6,7 @@ CONSTANTS
   Bs = {20}
   TSs = {0, 2}
   TNs = {0, 1, 3}
+  Ps <- PsQuick
   XSpan = 2
 INVARIANT InverseWhereFinite
 INVARIANT NonIncreasing
